@@ -18,7 +18,12 @@ def run_one(m, tier):
     try:
         shutil.copytree(os.path.join(REPO, "pygamma_agreement"), os.path.join(scratch, "pygamma_agreement"),
                         ignore=shutil.ignore_patterns("__pycache__"))
-        edits = m.get("edits") or [m]
+        if m.get("patch"):
+            r = subprocess.run(["patch", "-p1", "-s", "-d", scratch, "-i", os.path.abspath(os.path.join(VERIF, m["patch"]))],
+                               capture_output=True, text=True)
+            if r.returncode != 0:
+                return m, "BAD-MUTANT", f"patch does not apply: {r.stdout[-200:]} {r.stderr[-200:]}", 0
+        edits = [] if m.get("patch") else (m.get("edits") or [m])
         for ed in edits:
             path = os.path.join(scratch, ed["file"])
             s = open(path).read()
@@ -55,6 +60,15 @@ def main():
     ap.add_argument("--jobs", type=int, default=2)
     a = ap.parse_args()
     muts = json.load(open(os.path.join(VERIF, "selftest", "mutants.json")))
+    # changes written by independent sub-agents (kept under seeded/<id>/ with their demonstration)
+    seeded_root = os.path.join(VERIF, "seeded")
+    if os.path.isdir(seeded_root):
+        for d in sorted(os.listdir(seeded_root)):
+            meta = os.path.join(seeded_root, d, "meta.json")
+            if os.path.exists(meta):
+                md = json.load(open(meta))
+                muts.append({"id": "seeded-" + d, "prop": md.get("check_with") or [md["property"]],
+                             "patch": os.path.join("seeded", d, "patch.diff"), "note": md.get("needs", "")})
     if a.only:
         muts = [m for m in muts if m["id"] in a.only.split(",")]
     if a.prop:
